@@ -2,14 +2,23 @@
   C15 — gathering state across ranks is lossless and correctly addressed.
 
   Model: TE/Model/Sync.lean (synclib, literally).  Spec: TE/Spec/Sync.lean ("every member's
-  value in rank order on receiving ranks, None elsewhere").  All theorems quantify over the
-  group size `n`, the per-rank values and the junk content of `torch.empty` dummies.
+  value in rank order on receiving ranks, None elsewhere").  All theorems quantify over
+    * the group `g`: ANY list of global ranks without repetition (`IsGroup g n`: `g.Nodup`,
+      `g.length = n`) — the whole world, a sub-group, a group not containing global rank 0,
+      members in any order — and hence over every group size `n`;
+    * the destination: `None` or any member named by its group rank (`DstIn n dst`);
+    * the per-rank values, and the junk content of `torch.empty` dummies.
+  The members' environments are `envOf g n dst junk i = ⟨me := i, ws := n, grp := g, dst, junk i⟩`.
 
-  Addressing hypothesis `DstOk g dst`: `dst = None`, or the destination's global rank equals
-  its group rank (`g.idxOf d = d`, e.g. the whole world).  Without it the statements are FALSE
-  for the code as it is — see the witness theorems at the end (known findings).
+  Hypotheses on the values (`Sendable`, `ListSendable`, `StateOk`, `Syncable`: TE/Spec/Sync.lean)
+  are synclib's documented contract: tensors of one state have one dtype and one number of
+  dimensions across ranks; the elements of a list state likewise; dict states have equal key sets;
+  all ranks hold the same (metric, state) names with the same state kind.  Outside them the
+  statements are FALSE for the code as it is — see the witness theorems at the end (known findings).
 -/
-import TE.Lemmas.SyncSend
+import TE.Lemmas.SyncExample
+import TE.Lemmas.SyncHead
+import TE.Lemmas.SyncCheck
 namespace TE.C15
 open TE TE.Sync TE.Spec.Sync
 
@@ -24,83 +33,227 @@ example : ShapeLe [2, 0, 3] [2, 2, 4] ∧ (⟨.f32, [2, 0, 3], []⟩ : Tensor).W
     ((⟨.f32, [1, 2], [5, 7]⟩ : Tensor).pad [3, 2]).data = [5, 7, 0, 0, 0, 0] := by
   refine ⟨.cons (by decide) (.cons (by decide) (.cons (by decide) .nil)), by decide, by decide +kernel⟩
 
-/-- `send_tensors_lossless` (with `dst_only` for tensors): for every group size `n`, every
-    destination that is addressed soundly, and per-rank tensors of one dtype and one number of
-    dimensions (shapes otherwise arbitrary, zero extents included): no mismatch, every
-    receiving rank holds exactly `[t₀,…,t_{n-1}]` (shape, dtype tag, content) and every other
-    rank holds `None`. -/
-theorem send_tensors_lossless (g : List Nat) (n gws : Nat) (dst : Option Nat) (junk : Nat → Q)
-    (hd : DstOk g dst) (T : Nat → Tensor) (dt : DType) (k : Nat) (hT : Sendable n T dt k) :
-    (runWorldL g ((List.range n).map fun i => sendTensors ⟨i, n, gws, dst, junk i⟩ (T i))).out
+/-- `send_tensors_lossless` (with `dst_only` for tensors): for every group, every destination and
+    per-rank tensors of one dtype and one number of dimensions (shapes otherwise arbitrary, zero
+    extents included): no mismatch, every receiving rank holds exactly `[t₀,…,t_{n-1}]` (shape,
+    dtype tag, content) and every other rank holds `None`. -/
+theorem send_tensors_lossless (g : List Nat) (n : Nat) (hg : IsGroup g n) (dst : Option Nat) (hd : DstIn n dst)
+    (junk : Nat → Q) (T : Nat → Tensor) (dt : DType) (k : Nat) (hT : Sendable n T dt k) :
+    (runWorldL g ((List.range n).map fun i => sendTensors (envOf g n dst junk i) (T i))).out
       = .ok ((List.range n).map fun i => gathered n dst T i) :=
-  yields_sendTensors g n gws dst junk hd T dt k hT
+  yields_sendTensors g n hg dst junk hd T dt k hT
 
-/-- non-vacuity: three ranks with shapes 1×2, 2×3, 0×1 satisfy the hypotheses, for `dst = 1`
-    on the whole world. -/
+/-- non-vacuity: three ranks with shapes 1×2, 2×3, 0×1 satisfy the hypotheses, for the sub-group
+    `[4, 1, 2]` of a larger world and destination = group rank 1. -/
 example :
     let T : Nat → Tensor := fun i => match i with
       | 0 => ⟨.f32, [1, 2], [0, 1]⟩ | 1 => ⟨.f32, [2, 3], [0, 1, 2, 3, 4, 5]⟩ | _ => ⟨.f32, [0, 1], []⟩
-    Sendable 3 T .f32 2 ∧ DstOk [0, 1, 2] (some 1) := by
-  refine ⟨?_, by decide⟩
+    Sendable 3 T .f32 2 ∧ IsGroup [4, 1, 2] 3 ∧ DstIn 3 (some 1) := by
+  refine ⟨?_, ⟨by decide, rfl⟩, by decide⟩
   intro i hi
   match i, hi with
   | 0, _ => exact ⟨rfl, rfl, by decide⟩
   | 1, _ => exact ⟨rfl, rfl, by decide⟩
   | 2, _ => exact ⟨rfl, rfl, by decide⟩
 
-/-! ### witnesses: the statements fail outside the hypotheses (known findings) -/
+/-- `sync_states_lossless`: for a whole state collection (`sync_states(states, …,
+    metrics_traversal_order(states), process_group, rank)`), under `Syncable`: the run completes
+    without mismatch; every receiving member holds, for every member `j` in rank order, member
+    `j`'s collection in traversal order — every state equal to what `j` sent (`canon`: a dict
+    state lists its entries by sorted key, see `dict_same_map`); non-receiving members hold `None`. -/
+theorem sync_states_lossless (g : List Nat) (n : Nat) (hg : IsGroup g n) (dst : Option Nat) (hd : DstIn n dst)
+    (junk : Nat → Q) (sd : Nat → List (String × List (String × TState)))
+    (hS : Syncable n fun i => traversal (sd i)) :
+    (runWorldL g ((List.range n).map fun i => syncStates (envOf g n dst junk i) (sd i))).out
+      = .ok ((List.range n).map fun i => gathered n dst (fun j => (traversal (sd j)).map canonEntry) i) :=
+  yields_syncFlat g n dst junk hg hd _ hS
+
+/-- a dict state in canonical listing is the same map: the same keys (sorted), the same tensor
+    under every key. -/
+theorem dict_same_map (kv : List (String × Tensor)) :
+    (canonDict kv).map (·.1) = sortKeys (kv.map (·.1)) ∧ ∀ q, lookupKey q (canonDict kv) = lookupKey q kv :=
+  ⟨canonDict_keys kv, canonDict_lookup kv⟩
+
+/-- every other kind of state comes back literally. -/
+theorem canon_id (s : TState) (h : ∀ kv, s ≠ .dict kv) : canon s = s := by
+  cases s <;> first | rfl | exact absurd rfl (h _)
+
+/-- `dst_only`: when a destination is named, exactly that member receives; every other member
+    obtains `None` — and still the run completes (all members issued compatible collectives). -/
+theorem dst_only (g : List Nat) (n : Nat) (hg : IsGroup g n) (d : Nat) (hd : d < n)
+    (junk : Nat → Q) (sd : Nat → List (String × List (String × TState)))
+    (hS : Syncable n fun i => traversal (sd i)) :
+    ∃ rs, (runWorldL g ((List.range n).map fun i => syncStates (envOf g n (some d) junk i) (sd i))).out = .ok rs ∧
+      rs.length = n ∧
+      (∀ i, i < n → i ≠ d → rs[i]? = some none) ∧
+      rs[d]? = some (some ((List.range n).map fun j => (traversal (sd j)).map canonEntry)) := by
+  refine ⟨_, sync_states_lossless g n hg (some d) hd junk sd hS, by simp, ?_, ?_⟩
+  · intro i hi hne
+    simp [List.getElem?_map, List.getElem?_range hi, gathered, receives, hne]
+  · simp [List.getElem?_map, List.getElem?_range hd, gathered, receives, allOf]
+
+/-- all ranks issue the same collective sequence: in the run of `sync_states` every round is ONE
+    collective — every member of the group sits at a collective of the same kind with the same root
+    (`Req.head`); nobody has returned, raised or taken another branch. -/
+theorem sync_states_same_collectives (g : List Nat) (n : Nat) (hg : IsGroup g n) (dst : Option Nat) (hd : DstIn n dst)
+    (junk : Nat → Q) (sd : Nat → List (String × List (String × TState)))
+    (hS : Syncable n fun i => traversal (sd i)) :
+    ∀ r ∈ (runWorldL g ((List.range n).map fun i => syncStates (envOf g n dst junk i) (sd i))).rounds,
+      ∃ hd, RoundIs hd r := by
+  have h := sync_states_lossless g n hg dst hd junk sd hS
+  cases n with
+  | zero => intro r hr; simp [runWorldL] at hr
+  | succ n =>
+    rw [List.range_succ_eq_map] at h ⊢
+    simp only [List.map_cons, runWorldL] at h ⊢
+    exact rounds_same_head_of_ok g _ _ _ h
+
+/-- `list_sync_lossless`: a list state through `sync_states`: per-rank lengths are kept — all-empty
+    (`[]` stays `[]`) and some-empty included —, element `i` of member `j` is member `j`'s `i`-th
+    tensor, and the dummy tensors short ranks send never surface. -/
+theorem list_sync_lossless (g : List Nat) (n : Nat) (hg : IsGroup g n) (dst : Option Nat) (hd : DstIn n dst)
+    (junk : Nat → Q) (key : Key) (xs : Nat → List Tensor) (dt : DType) (k : Nat) (hx : ListSendable n xs dt k) :
+    (runWorldL g ((List.range n).map fun i => syncFlat (envOf g n dst junk i) [(key, .list (xs i))])).out
+      = .ok ((List.range n).map fun i => gathered n dst (fun j => [(key, TState.list (xs j))]) i) :=
+  yields_syncFlat g n dst junk hg hd _
+    (.cons key (fun i => .list (xs i)) (fun _ => []) (fun _ _ => rfl) (.list xs dt k (fun _ _ => rfl) hx)
+      (.nil fun _ _ => rfl))
+
+/-- `dict_sync_lossless`: under equal key sets on all ranks (`hk`; insertion order free) every
+    member's dict comes back keyed correctly: the same keys, the same tensor under every key. -/
+theorem dict_sync_lossless (g : List Nat) (n : Nat) (hg : IsGroup g n) (dst : Option Nat) (hd : DstIn n dst)
+    (junk : Nat → Q) (key : Key) (kv : Nat → List (String × Tensor)) (ks : List String) (dt : DType) (k : Nat)
+    (hk : ∀ i, i < n → sortKeys ((kv i).map (·.1)) = ks)
+    (hv : ListSendable n (fun i => valuesByKeys (kv i) ks) dt k) :
+    (runWorldL g ((List.range n).map fun i => syncFlat (envOf g n dst junk i) [(key, .dict (kv i))])).out
+      = .ok ((List.range n).map fun i => gathered n dst (fun j => [(key, TState.dict (canonDict (kv j)))]) i)
+    ∧ ∀ j q, lookupKey q (canonDict (kv j)) = lookupKey q (kv j) :=
+  ⟨yields_syncFlat g n dst junk hg hd _
+    (.cons key (fun i => .dict (kv i)) (fun _ => []) (fun _ _ => rfl) (.dict kv ks dt k (fun _ _ => rfl) hk hv)
+      (.nil fun _ _ => rfl)),
+   fun j q => canonDict_lookup (kv j) q⟩
+
+/-- `obj_sync_lossless`: ints stay the ints they were, floats the floats. -/
+theorem obj_sync_lossless (g : List Nat) (n : Nat) (hg : IsGroup g n) (dst : Option Nat) (hd : DstIn n dst)
+    (junk : Nat → Q) (key : Key) (N : Nat → Int) (F : Nat → Q) :
+    (runWorldL g ((List.range n).map fun i => syncFlat (envOf g n dst junk i) [(key, .int (N i))])).out
+      = .ok ((List.range n).map fun i => gathered n dst (fun j => [(key, TState.int (N j))]) i)
+    ∧ (runWorldL g ((List.range n).map fun i => syncFlat (envOf g n dst junk i) [(key, .float (F i))])).out
+      = .ok ((List.range n).map fun i => gathered n dst (fun j => [(key, TState.float (F j))]) i) :=
+  ⟨yields_syncFlat g n dst junk hg hd _
+    (.cons key (fun i => .int (N i)) (fun _ => []) (fun _ _ => rfl) (.int N fun _ _ => rfl) (.nil fun _ _ => rfl)),
+   yields_syncFlat g n dst junk hg hd _
+    (.cons key (fun i => .float (F i)) (fun _ => []) (fun _ _ => rfl) (.float F fun _ _ => rfl) (.nil fun _ _ => rfl))⟩
+
+/-! ### the hypotheses are checkable -/
+
+/-- `syncable_checker_sound`: the executable checker `syncableB` (TE/Spec/Sync.lean; the driver's
+    `sync.syncable`, which the correspondence run evaluates on every generated case) accepts only
+    `Syncable` worlds — so for every world it accepts, `sync_states` is lossless, correctly
+    addressed and free of mismatches, for every group numbering and destination. -/
+theorem syncable_checker_sound (g : List Nat) (sds : List (List (String × List (String × TState))))
+    (hg : IsGroup g sds.length) (dst : Option Nat) (hd : DstIn sds.length dst) (junk : Nat → Q)
+    (hc : syncableB (sds.map traversal) = true) :
+    (runWorldL g ((List.range sds.length).map fun i =>
+        syncStates (envOf g sds.length dst junk i) (sds[i]?.getD []))).out
+      = .ok ((List.range sds.length).map fun i =>
+          gathered sds.length dst (fun j => (traversal (sds[j]?.getD [])).map canonEntry) i) := by
+  apply sync_states_lossless g sds.length hg dst hd junk
+  have h := syncableB_sound _ hc
+  rw [List.length_map] at h
+  have : rowAt (sds.map traversal) = fun i => traversal (sds[i]?.getD []) := by
+    funext i
+    simp only [rowAt, List.getElem?_map]
+    cases sds[i]? <;> rfl
+  rw [this] at h
+  exact h
+
+/-- non-vacuity: the checker accepts the three-rank example below (and rejects unequal key sets). -/
+example : syncableB ((List.range 3).map fun i => traversal [("bag", exStates i)]) = true ∧
+    syncableB [[(("m", "d"), .dict [("a", ⟨.f32, [1], [1]⟩)])], [(("m", "d"), .dict [("b", ⟨.f32, [1], [2]⟩)])]] = false := by
+  decide +kernel
+
+/-! ### non-vacuity of `Syncable`: three ranks, one idle, uneven shapes -/
+
+/-- `exStates` (TE/Lemmas/SyncExample.lean): rank 0 saw two batches, rank 1 none (empty list, 0-row
+    tensor, zero-sized dict values), rank 2 one; every state kind occurs; the group is `[5, 0, 3]`
+    of a larger world and the destination its member with group rank 2. -/
+example : Syncable 3 (fun i => traversal [("bag", exStates i)]) ∧ IsGroup [5, 0, 3] 3 ∧ DstIn 3 (some 2) :=
+  ⟨ex_syncable "bag", ⟨by decide, rfl⟩, by decide⟩
 
 private def tf (sh : List Nat) (d : List Q) : Tensor := ⟨.f32, sh, d⟩
-private def env (i n gws : Nat) (dst : Option Nat) : Env := ⟨i, n, gws, dst, 0⟩
+
+/-! ### regressions: the four repaired defects, on the inputs that used to exhibit them -/
+
+private def env (i n : Nat) (g : List Nat) (dst : Option Nat) : Env := ⟨i, n, g, dst, 0⟩
+
+/-- sub-group `[1,2]` of a world of 3, destination = group rank 1: `dst` is translated to GLOBAL rank 2,
+    that member receives both tensors, the other one `None`; and likewise for group rank 0 = global 1
+    (was: `rootNotMeant` / `rootNotInGroup`). -/
+theorem reg_dst_subgroup :
+    (runWorldL [1, 2] [sendTensors (env 0 2 [1, 2] (some 1)) (tf [1] [5]), sendTensors (env 1 2 [1, 2] (some 1)) (tf [1] [6])]).out
+      = .ok [none, some [tf [1] [5], tf [1] [6]]]
+    ∧ (runWorldL [1, 2] [sendTensors (env 0 2 [1, 2] (some 1)) (tf [1] [5]), sendTensors (env 1 2 [1, 2] (some 1)) (tf [1] [6])]).rounds
+      = [[some (.allGather ⟨.i64, [1], [1]⟩), some (.allGather ⟨.i64, [1], [1]⟩)],
+         [some (.gather 2 false (tf [1] [5])), some (.gather 2 true (tf [1] [6]))]]
+    ∧ (runWorldL [1, 2] [sendTensors (env 0 2 [1, 2] (some 0)) (tf [1] [5]), sendTensors (env 1 2 [1, 2] (some 0)) (tf [1] [6])]).out
+      = .ok [some [tf [1] [5], tf [1] [6]], none] := by decide +kernel
+
+/-- a list state that is empty on every rank comes back as `[]` on every rank (was: the `{}` placeholder). -/
+theorem reg_all_empty_list :
+    (runWorldL [0, 1] [syncOne (env 0 2 [0, 1] none) (.list []), syncOne (env 1 2 [0, 1] none) (.list [])]).out
+      = .ok [[.list [], .list []], [.list [], .list []]] := by decide +kernel
+
+/-- a proper sub-group `[0,1]` of a world of 3: `sync_states` returns one entry per member of the
+    group (was: `dist.get_world_size()` entries, the surplus one holding only placeholders). -/
+theorem reg_sized_by_group :
+    (runWorldL [0, 1] [syncFlat (env 0 2 [0, 1] none) [(("m", "n"), .int 4)], syncFlat (env 1 2 [0, 1] none) [(("m", "n"), .int 5)]]).out
+      = .ok [some [[(("m", "n"), .int 4)], [(("m", "n"), .int 5)]],
+             some [[(("m", "n"), .int 4)], [(("m", "n"), .int 5)]]] := by decide +kernel
+
+/-- sub-group `[1,2]` with one empty list: the member that knows dtype and shape broadcasts them
+    (`src` translated to its GLOBAL rank) and both members end with `[[], [t]]` resp. `[[t], []]`
+    (was: `rootNotMeant` / `rootNotInGroup`). -/
+theorem reg_src_subgroup :
+    (runWorldL [1, 2] [syncOne (env 0 2 [1, 2] none) (.list []), syncOne (env 1 2 [1, 2] none) (.list [tf [2] [1, 1]])]).out
+      = .ok [[.list [], .list [tf [2] [1, 1]]], [.list [], .list [tf [2] [1, 1]]]]
+    ∧ (runWorldL [1, 2] [syncOne (env 0 2 [1, 2] none) (.list [tf [2] [1, 1]]), syncOne (env 1 2 [1, 2] none) (.list [])]).out
+      = .ok [[.list [tf [2] [1, 1]], .list []], [.list [tf [2] [1, 1]], .list []]] := by decide +kernel
+
+/-! ### witnesses: the statements fail outside the hypotheses (known findings) -/
 
 /-- ¬(equal ndim): a 0-dim tensor on one rank and a 1-dim one on the other — the first issues
     `all_gather(value)`, the second `all_gather(shape)` (finding C02|send_tensors|ndim-0-vs-1-across-ranks). -/
 theorem wit_ndim_mismatch :
-    (runWorldL [0, 1] [sendTensors (env 0 2 2 none) (tf [] [0]), sendTensors (env 1 2 2 none) (tf [2] [1, 2])]).out
+    (runWorldL [0, 1] [sendTensors (env 0 2 [0, 1] none) (tf [] [0]), sendTensors (env 1 2 [0, 1] none) (tf [2] [1, 2])]).out
       = .error .dtypeShapeDiffers := by decide +kernel
 
-/-- ¬DstOk: sub-group `[1,2]` of a world of 3, destination = group rank 1: torch reads `dst=1` as the
-    GLOBAL rank 1, which is the other member (finding C15|send_tensors|subgroup|dst-is-group-relative). -/
-theorem wit_dst_group_relative :
-    (runWorldL [1, 2] [sendTensors (env 0 2 3 (some 1)) (tf [1] [5]), sendTensors (env 1 2 3 (some 1)) (tf [1] [6])]).out
-      = .error .rootNotMeant
-    ∧ (runWorldL [1, 2] [sendTensors (env 0 2 3 (some 0)) (tf [1] [5]), sendTensors (env 1 2 3 (some 0)) (tf [1] [6])]).out
-      = .error .rootNotInGroup := by decide +kernel
-
-/-- "an empty list stays an empty list" fails at the `sync_states` level: a list state that is
-    empty on every rank comes back as the `{}` placeholder
-    (finding C15|_sync_list_tensor_states|all-ranks-empty|comes-back-as-dict). -/
-theorem wit_all_empty_list :
-    (runWorldL [0, 1] [syncOne (env 0 2 2 none) (.list []), syncOne (env 1 2 2 none) (.list [])]).out
-      = .ok [[.dict [], .dict []], [.dict [], .dict []]] := by decide +kernel
-
-/-- unequal key sets: rank 1's `{"b": t}` is delivered to rank 0 under rank 0's key `"a"`
+/-- ¬(equal key sets): rank 1's `{"b": t}` is delivered to rank 0 under rank 0's key `"a"`
     (finding C15|_sync_dict_tensor_states|unequal-keys|re-keyed-with-local-keys). -/
 theorem wit_unequal_keys :
-    (runWorldL [0, 1] [syncOne (env 0 2 2 none) (.dict [("a", tf [1] [1])]),
-                       syncOne (env 1 2 2 none) (.dict [("b", tf [1] [2])])]).out
+    (runWorldL [0, 1] [syncOne (env 0 2 [0, 1] none) (.dict [("a", tf [1] [1])]),
+                       syncOne (env 1 2 [0, 1] none) (.dict [("b", tf [1] [2])])]).out
       = .ok [[.dict [("a", tf [1] [1])], .dict [("a", tf [1] [2])]],
              [.dict [("b", tf [1] [1])], .dict [("b", tf [1] [2])]]] := by decide +kernel
 
-/-- a proper sub-group: `sync_states` returns `dist.get_world_size()` (global) entries, the surplus
-    ones holding only the placeholder (finding C15|sync_states|subgroup|sized-by-global-world). -/
-theorem wit_sized_by_global_world :
-    (runWorldL [0, 1] [syncFlat (env 0 2 3 none) [(("m", "n"), .int 4)], syncFlat (env 1 2 3 none) [(("m", "n"), .int 5)]]).out
-      = .ok [some [[(("m", "n"), .int 4)], [(("m", "n"), .int 5)], [(("m", "n"), .dict [])]],
-             some [[(("m", "n"), .int 4)], [(("m", "n"), .int 5)], [(("m", "n"), .dict [])]]] := by decide +kernel
+/-- ¬(equal key sets), sizes differ: the rank with the larger dict silently loses… nothing locally, but
+    the OTHER rank's view of it is truncated to its own number of keys. -/
+theorem wit_unequal_keys_truncates :
+    (runWorldL [0, 1] [syncOne (env 0 2 [0, 1] none) (.dict [("a", tf [1] [1])]),
+                       syncOne (env 1 2 [0, 1] none) (.dict [("a", tf [1] [2]), ("b", tf [1] [3])])]).out
+      = .ok [[.dict [("a", tf [1] [1])], .dict [("a", tf [1] [2])]],
+             [.dict [("a", tf [1] [1])], .dict [("a", tf [1] [2]), ("b", tf [1] [3])]]] := by decide +kernel
 
-/-- sub-group `[1,2]` with one empty list: `broadcast_object_list(src=1)` — a group-relative number
-    torch reads as global rank 1, which holds `[None]` (finding …|_sync_dtype_and_shape|subgroup|src-is-group-relative). -/
-theorem wit_src_group_relative :
-    (runWorldL [1, 2] [syncOne (env 0 2 3 none) (.list []), syncOne (env 1 2 3 none) (.list [tf [2] [1, 1]])]).out
-      = .error .rootNotMeant
-    ∧ (runWorldL [1, 2] [syncOne (env 0 2 3 none) (.list [tf [2] [1, 1]]), syncOne (env 1 2 3 none) (.list [])]).out
-      = .error .rootNotInGroup := by decide +kernel
-
-/-- a list whose elements differ in ndim, with a shorter rank: the dummy tensor copies only the first
-    element's shape (finding C02|_sync_list_tensor_states|short-rank-dummy|shape-dtype-of-first-element). -/
+/-- ¬(homogeneous list elements): a list whose elements differ in ndim, with a shorter rank: the dummy
+    tensor copies only the first element's shape
+    (finding C02|_sync_list_tensor_states|short-rank-dummy|shape-dtype-of-first-element). -/
 theorem wit_dummy_first_element_only :
-    (runWorldL [0, 1] [syncOne (env 0 2 2 none) (.list [tf [2] [1, 1], tf [1, 1] [3]]), syncOne (env 1 2 2 none) (.list [])]).out
+    (runWorldL [0, 1] [syncOne (env 0 2 [0, 1] none) (.list [tf [2] [1, 1], tf [1, 1] [3]]), syncOne (env 1 2 [0, 1] none) (.list [])]).out
       = .error .dtypeShapeDiffers := by decide +kernel
+
+/-- ¬(same state kind): a tensor on one rank where the other holds an int — different collectives. -/
+theorem wit_different_kinds :
+    (runWorldL [0, 1] [syncOne (env 0 2 [0, 1] none) (.tensor (tf [] [1])), syncOne (env 1 2 [0, 1] none) (.int 1)]).out
+      = .error .differentCollectives := by decide +kernel
 
 end TE.C15
